@@ -13,6 +13,7 @@ import (
 	"strings"
 	"sync"
 	"time"
+	"unicode/utf8"
 
 	"github.com/go-kit/log"
 	"github.com/go-kit/log/level"
@@ -1479,6 +1480,14 @@ func (m *KV) NotifyMsg(msg []byte) {
 		return
 	}
 
+	// The key is used as a metric label value, which panics on invalid UTF-8: a corrupted
+	// message must be dropped, not crash the node.
+	if !utf8.ValidString(kvPair.Key) {
+		level.Warn(m.logger).Log("msg", "received an invalid KV Pair (key is not valid UTF-8)")
+		m.numberOfInvalidReceivedMessages.Inc()
+		return
+	}
+
 	codec := m.GetCodec(kvPair.GetCodec())
 	if codec == nil {
 		m.numberOfInvalidReceivedMessages.Inc()
@@ -1750,6 +1759,12 @@ func (m *KV) MergeRemoteState(data []byte, _ bool) {
 		}
 
 		data = data[kvPairLength:]
+
+		if !utf8.ValidString(kvPair.Key) {
+			// Same reason as for single messages (see NotifyMsg): the key ends up in a metric label.
+			level.Error(m.logger).Log("msg", "failed to parse remote state: key is not valid UTF-8")
+			continue
+		}
 
 		codec := m.GetCodec(kvPair.GetCodec())
 		if codec == nil {
